@@ -43,6 +43,26 @@ func fixedSize(codec string) int {
 	}
 }
 
+// marshalOwned: the caller owns what Marshal returned. Overwrite it and append to it, as a caller assembling a
+// packet may, and encode the same value again: the layout must still be the specified one.
+func marshalOwned(b, want []byte, again func() ([]byte, error), what string) error {
+	for i := range b {
+		b[i] ^= 0xFF
+	}
+	if cap(b) > len(b) {
+		full := b[:cap(b)]
+		for i := len(b); i < len(full); i++ {
+			full[i] ^= 0xFF
+		}
+	}
+	b2, err := again()
+	if err != nil || !bytes.Equal(b2, want) {
+		return failf("%s: after the caller overwrote (and appended to) the buffer an earlier Marshal returned, Marshal() = (%s,%v), want %s", what, hx(b2), err, hx(want))
+	}
+
+	return nil
+}
+
 func checkC17(r *run, c *FixedCase) (CaseInfo, error) {
 	var ci CaseInfo
 	if c.Decode {
@@ -73,6 +93,9 @@ func checkC17(r *run, c *FixedCase) (CaseInfo, error) {
 		if err := d.Unmarshal(b); err != nil || d != e {
 			return ci, failf("AudioLevel round trip: %+v -> %s -> %+v (%v)", e, hx(b), d, err)
 		}
+		if err := marshalOwned(b, []byte{want}, e.Marshal, "AudioLevel"); err != nil {
+			return ci, err
+		}
 	case "transportcc":
 		e := rtp.TransportCCExtension{TransportSequence: uint16(c.A)}
 		b, err := e.Marshal()
@@ -83,6 +106,9 @@ func checkC17(r *run, c *FixedCase) (CaseInfo, error) {
 		var d rtp.TransportCCExtension
 		if err := d.Unmarshal(b); err != nil || d != e {
 			return ci, failf("TransportCC round trip: %+v -> %s -> %+v (%v)", e, hx(b), d, err)
+		}
+		if err := marshalOwned(b, want, e.Marshal, "TransportCC"); err != nil {
+			return ci, err
 		}
 	case "playoutdelay":
 		e := rtp.PlayoutDelayExtension{MinDelay: uint16(c.A), MaxDelay: uint16(c.B)}
@@ -104,6 +130,9 @@ func checkC17(r *run, c *FixedCase) (CaseInfo, error) {
 		if err := d.Unmarshal(b); err != nil || d != e {
 			return ci, failf("PlayoutDelay round trip: %+v -> %s -> %+v (%v)", e, hx(b), d, err)
 		}
+		if err := marshalOwned(b, want, e.Marshal, "PlayoutDelay"); err != nil {
+			return ci, err
+		}
 	case "abssendtime":
 		e := rtp.AbsSendTimeExtension{Timestamp: c.A}
 		b, err := e.Marshal()
@@ -114,6 +143,9 @@ func checkC17(r *run, c *FixedCase) (CaseInfo, error) {
 		var d rtp.AbsSendTimeExtension
 		if err := d.Unmarshal(b); err != nil || d.Timestamp != c.A&0xFFFFFF {
 			return ci, failf("AbsSendTime round trip: %#x -> %s -> %#x (%v)", c.A, hx(b), d.Timestamp, err)
+		}
+		if err := marshalOwned(b, want, e.Marshal, "AbsSendTime"); err != nil {
+			return ci, err
 		}
 		if c.A > 0xFFFFFF {
 			ci.class("abssendtime-64bit-value")
@@ -135,6 +167,9 @@ func checkC17(r *run, c *FixedCase) (CaseInfo, error) {
 		if err := d.Unmarshal(b); err != nil || d.Timestamp != c.A || (d.EstimatedCaptureClockOffset != nil) != c.HasOffset ||
 			(c.HasOffset && *d.EstimatedCaptureClockOffset != c.Offset) {
 			return ci, failf("AbsCaptureTime round trip of %s failed: %+v (%v)", hx(b), d, err)
+		}
+		if err := marshalOwned(b, want, e.Marshal, "AbsCaptureTime"); err != nil {
+			return ci, err
 		}
 	default:
 		return ci, failf("unknown codec %q", c.Codec)
@@ -442,7 +477,7 @@ func enumC17(r *run) bool {
 	return true
 }
 
-const ruleC17 = "complete enumeration of the finite value domains (AudioLevel 2x256, TransportCC 2^16, PlayoutDelay boundary rows and out-of-range values in quick / all 2^24 pairs in thorough, AbsSendTime 2^16 spread values in quick / all 2^24 in thorough, every input length 0..size+2 with preloaded receivers) plus rapid-drawn cases for the 64-bit domains (AbsSendTime 64-bit timestamps, AbsCaptureTime timestamps with/without int64 offsets) and random decode inputs of every length; oracle: hand-written bit layouts of the specifications, error and no bytes for out-of-range values, decode independent of previous receiver content, trailing bytes ignored, short input rejected, Unmarshal(Marshal(v)) = v. Every case is non-trivial (each checks one value or one input against the layout); distinct = enumerated values are distinct by construction, drawn ones by FNV-64 of the JSON case"
+const ruleC17 = "complete enumeration of the finite value domains (AudioLevel 2x256, TransportCC 2^16, PlayoutDelay boundary rows and out-of-range values in quick / all 2^24 pairs in thorough, AbsSendTime 2^16 spread values in quick / all 2^24 in thorough, every input length 0..size+2 with preloaded receivers) plus rapid-drawn cases for the 64-bit domains (AbsSendTime 64-bit timestamps, AbsCaptureTime timestamps with/without int64 offsets) and random decode inputs of every length; oracle: hand-written bit layouts of the specifications, error and no bytes for out-of-range values, decode independent of previous receiver content, trailing bytes ignored, short input rejected, Unmarshal(Marshal(v)) = v, and Marshal gives the same bytes again after the caller overwrote and appended to the buffer an earlier call returned. Every case is non-trivial (each checks one value or one input against the layout); distinct = enumerated values are distinct by construction, drawn ones by FNV-64 of the JSON case"
 
 func TestC17(t *testing.T) {
 	r := begin(t, "C17", "exploration", ruleC17)
